@@ -298,3 +298,41 @@ def registry_slice(a, b, c):
 def registry_iis(a, b, c, exclude=()):
     s = IisFromSlices(a, b, c, exclude)
     return {s.key: s}
+
+
+class Starts(Contract):
+    """RaggedArray.starts: the offset of every row in the flat data = prefix sums of the row lengths
+    (this is the precondition `starts-are-prefix-sums` of _convert_from_2d, established where the class computes it)"""
+    key = F + 'RaggedArray.starts'
+
+    def params(self, e, st):
+        from pyvc.engine import RecV
+        return {'self': e.new_obj(st, RecV('RaggedArray', {'lengths': _arr(e, st, 'lengths', 'N')}))}
+
+    def ghost(self, L, A):
+        PS, ax = prefix_sums(L, A['self'].lengths, 'PSS')
+        return {'PS': PS}, ax
+
+    def requires(self, L, A, G):
+        ln = A['self'].lengths
+        return [('at-least-one-row', L.len(ln) >= 1)]
+
+    def ensures(self, L, A, N, R, G, V):
+        ln = A['self'].lengths
+        n = L.len(ln)
+        return [('one-start-per-row', L.len(R) == n), ('starts-are-prefix-sums', L.forall(0, n, lambda t: R[t] == G['PS'](t)))]
+
+    def exit_lemmas(self, L, A, R, G, V):
+        if not L.sym:
+            return []
+        n = L.len(A['self'].lengths)
+        return [dict(name='cumulative-sums-are-the-prefix-sums', lo=0, hi=n - 1, down=False, P=lambda t: R[t] == G['PS'](t))]
+
+    def pins(self):
+        import z3
+        return [[z3.Int('N') == a] for a in (1, 2, 3)]
+
+
+def registry_starts():
+    s = Starts()
+    return {s.key: s}
